@@ -190,6 +190,50 @@ class Call:
                 "TZ": os.environ.get("TZ"), "via": self.via, "tag": self.tag}
 
 
+def tzspec_from_wire(w):
+    """inverse of TzSpec.wire() (used by replay)"""
+    def name(x):
+        return None if x == "N" else ("" if x == "-" else "".join(chr(int(c)) for c in x.split(".")))
+    def val(v):
+        if v[0] == "o":
+            return ("o", int(v[1:]))
+        if v[0] == "s":
+            return ("s", name(v[1:]))
+        if v[0] == "i":
+            return ("i", int(v[1:]))
+        return (v[0],)
+    if w in (None, "-"):
+        return TzSpec()
+    parts = w.split(":")
+    ents = {}
+    if parts[1]:
+        for e in parts[1].split(","):
+            k, v = e.split("=")
+            ents[name(k)] = val(v)
+    if parts[0] == "M":
+        return TzSpec("map", ents)
+    return TzSpec("call", ents, val(parts[2]))
+
+
+def call_from_case(c):
+    """rebuild the call a violation recorded (text, default, flags, tzinfos form, parserinfo class + flags, input kind)"""
+    from dateutil.parser import parserinfo
+    info, custom = None, False
+    nm = c.get("parserinfo")
+    if nm:
+        fl = c.get("info_flags") or [False, False]
+        if nm == "parserinfo":
+            info = parserinfo(dayfirst=bool(fl[0]), yearfirst=bool(fl[1]))
+        else:
+            for _, cl in custom_infos():
+                if cl.__name__ == nm:
+                    info, custom = cl(dayfirst=bool(fl[0]), yearfirst=bool(fl[1])), True
+    d = datetime.datetime.fromisoformat(c["default"]) if c.get("default") else datetime.datetime(2003, 9, 25)
+    return Call(c["text"], default=d, dayfirst=c.get("dayfirst"), yearfirst=c.get("yearfirst"), fuzzy=bool(c.get("fuzzy")),
+                fwt=bool(c.get("fuzzy_with_tokens")), ignoretz=bool(c.get("ignoretz")), tz=tzspec_from_wire(c.get("tzinfos")),
+                info=info, info_custom=custom, via=c.get("via", "str"), tag=c.get("tag", ""))
+
+
 def the_info(call):
     from dateutil.parser import _parser
     return call.info if call.info is not None else _parser.DEFAULTPARSER.info
